@@ -173,19 +173,25 @@ def ob_codec_wiring(report):
         exs.append(ex2)
         fn2 = find_method(ex2.prog, 'BiStreamRequestHandler', 'new')
         cfgs = [a for a in fn2.args if re.search(r'\bConfig\b', fn2.decl.get(a, ''))]
-        if len(cfgs) != 1:
-            return ob.done(exs, 'inconclusive', f'BiStreamRequestHandler::new does not take exactly one configuration ({len(cfgs)})', paths=total)
+        lims = [a for a in fn2.args if re.fullmatch(r'(std::option::|core::option::)?Option<usize>', fn2.decl.get(a, '').strip())]
+        if len(cfgs) != 1 and not (not cfgs and len(lims) == 1):
+            return ob.done(exs, 'inconclusive', f'BiStreamRequestHandler::new takes neither exactly one configuration nor exactly one Option<usize> limit ({len(cfgs)}, {len(lims)})', paths=total)
         cell = ('H', 'cfg', 'config::Config')
         a2 = []
         for a in fn2.args:
-            if a == cfgs[0]:
+            if cfgs and a == cfgs[0]:
                 t = fn2.decl[a].strip()
                 a2.append(Ptr(cell) if t.startswith('&') else Sym('cfg', 'config::Config'))
+            elif not cfgs and a == lims[0]:
+                a2.append(Sym('own_limit', 'std::option::Option<usize>'))       # the caller passes config.max_frame_size() itself
             else:
                 a2.append(ex2.fresh('in_' + a.lstrip('_'), fn2.decl.get(a, '')))
         res2 = ex2.run(fn2, a2)
         total += len(res2)
-        own_d2, own_v2 = z3.BitVec(f'cfg.{cidx}.discr', 64), z3.BitVec(f'cfg.{cidx}@Some.0', 64)
+        if cfgs:
+            own_d2, own_v2 = z3.BitVec(f'cfg.{cidx}.discr', 64), z3.BitVec(f'cfg.{cidx}@Some.0', 64)
+        else:
+            own_d2, own_v2 = z3.BitVec('own_limit.discr', 64), z3.BitVec('own_limit@Some.0', 64)
         from props.rpcpath import framed_state_touched
         for r in res2:
             fr = [e for e in r.events if e.kind == 'framed']
@@ -306,7 +312,9 @@ def check(report, tier, only=None):
            ('write_request_refuses', lambda rep: ob_no_extra_refusal(rep, 'write_request')), ('write_response_refuses', lambda rep: ob_no_extra_refusal(rep, 'write_response')),
            ('write_request_structure', lambda rep: C07_e2.ob_write(rep, 'request')), ('write_response_structure', lambda rep: C07_e2.ob_write(rep, 'response')),
            # a refusal by the sender's own codec is confined and prompt: do_rpc returns the error instead of waiting for a response
-           ('sender_refusal_is_prompt', lambda rep: rpcpath.ob_do_rpc(rep, PROP))]
+           ('sender_refusal_is_prompt', lambda rep: rpcpath.ob_do_rpc(rep, PROP)),
+           # a refusal by the receiver's codec (an over-long frame is a decode error of that stream) stays confined to that RPC
+           ('receiver_refusal_is_confined', lambda rep: __import__('props.C12', fromlist=['x']).ob_handle_no_connection_ops(rep, PROP))]
     for n, f in obs:
         if only and not any(s in n for s in only):
             continue
